@@ -34,6 +34,31 @@ def built(model, route='A'):
     return fm, fails
 
 
+def bare_name_write(writer_cls, fm, ext, expect):
+    """Write to a bare relative file name (and one with a blank and a non-ASCII character) in a
+    scratch working directory: same returned text, file written.  Returns a Fail or None."""
+    import os
+    import shutil
+    base = engine.tmppath('cwd_' + ext.replace('.', '_'))
+    os.makedirs(base, exist_ok=True)
+    old = os.getcwd()
+    try:
+        os.chdir(base)
+        for name in ('model.' + ext, 'my m\u00f6del.' + ext):
+            try:
+                ret = writer_cls(name, fm).transform()
+                data = open(name, 'rb').read()
+            except Exception as exc:  # noqa: BLE001
+                return Fail('relative-destination:raises:%s' % type(exc).__name__, {'destination': name, 'msg': str(exc)[:200]})
+            engine.tick()
+            if ret != expect or (data if isinstance(ret, bytes) else data.decode('utf8', 'replace')) != ret:
+                return Fail('relative-destination:different-text', {'destination': name})
+    finally:
+        os.chdir(old)
+        shutil.rmtree(base, ignore_errors=True)
+    return None
+
+
 class ModelMutatedByLibrary(Exception):
     """The model object no longer has the content it was built with although only library calls
     that must not modify it were made (reported as a violation, never a machinery error)."""
